@@ -59,7 +59,7 @@ def spec(tier):
                     if t0 != 0:
                         continue
                 obs.append(CH(name=f"history_n{n}_d{depth}_w{w0}t{t0}", harness="c02.request_history", sym=sym,
-                              fixed=fixed, timeout=900 if th else 300))
+                              fixed=fixed, timeout=3000 if th else 300))
     obs.append(twin("history_deep", "c02.request_history", dict(e0=B, w1=I(0, 1), t1=I(0, 5), w2=I(0, 1), t2=I(0, 5)),
                     dict(n=2, depth=3, w0=0, t0=1, e1=False, e2=False, w3=0, t3=0), "deep"))
 
@@ -73,7 +73,7 @@ def spec(tier):
         fixed = dict(n=n, cmd0=cmd0, cmd4=0, d0=1, d1=2, d2=1, K=6)
         for i in range(3):
             fixed[f"e{i}"] = ebits[i] if i < len(ebits) else False
-        obs.append(CH(name=name, harness="c02.live_containers", sym=sym, fixed=fixed, pre=pre, timeout=600 if th else 300))
+        obs.append(CH(name=name, harness="c02.live_containers", sym=sym, fixed=fixed, pre=pre, timeout=2400 if th else 300))
     for cmd0 in (1, 2, 3):
         for e0 in (False, True):
             live(2, cmd0, [e0], f"live_n2_c{cmd0}_e{int(e0)}")
